@@ -2500,6 +2500,9 @@ class Convex:
         if not isinstance(other, Real):
             raise TypeError('Incorrect syntax.')
 
+        if other == 0:
+            return other * self.affine_out
+
         if self.xtype in 'AMNGIEXLPFKODTC':
             multiplier = self.multiplier * abs(other)
         elif self.xtype in 'SQ':
@@ -2751,6 +2754,8 @@ class PerspConvex(Convex):
     def __mul__(self, other):
 
         convex = super().__mul__(other)
+        if not isinstance(convex, Convex):
+            return convex
 
         return PerspConvex(convex.affine_in, self.affine_scale, convex.affine_out,
                            convex.xtype, convex.sign, convex.multiplier)
@@ -4483,12 +4488,16 @@ class DecConvex(Convex):
     def __mul__(self, other):
 
         expr = super().__mul__(other)
+        if not isinstance(expr, Convex):
+            return expr
 
         return DecConvex(expr, self.event_adapt)
 
     def __rmul__(self, other):
 
         expr = super().__rmul__(other)
+        if not isinstance(expr, Convex):
+            return expr
 
         return DecConvex(expr, self.event_adapt)
 
@@ -4690,12 +4699,16 @@ class DecPerspConvex(PerspConvex):
     def __mul__(self, other):
 
         expr = super().__mul__(other)
+        if not isinstance(expr, Convex):
+            return expr
 
         return DecPerspConvex(expr, self.event_adapt)
 
     def __rmul__(self, other):
 
         expr = super().__rmul__(other)
+        if not isinstance(expr, Convex):
+            return expr
 
         return DecPerspConvex(expr, self.event_adapt)
 
